@@ -707,7 +707,10 @@ def run(ctx):
 # ---- pair histories (mc/pairhist.py): a literal alone and after every other literal in the same process ---------
 PH_TEXTS = ['"a  b"', '"a b"', "'a  b'", '"a\\tb"', '"a\tb"', '"\\\\x41"', '"\\x41"', '"A"', "'A'", '"\\101"', '"\\\\101"', 'r"\\x41"', 'R"\\x41"', 'b"\\x41"', 'b"A"', 'b"\\101"', '"""a\nb"""', '"""a\n\nb"""',
             '"\\u00e9"', '"é"', 'b"é"', 'b"\\xc3\\xa9"', 'b"\\xe9"', '"\\U0001F600"', '"😀"', "007", "7", "0x7", "-7", "- 7", "7u", "7U", "0x7u", "7.0", "07.0", "7e0", "70e-1", "1e1", "10.0", ".5", "0.5", "-0.0", "0.0",
-            '""', "''", 'b""', 'r""', "true", "false", "null"]
+            '""', "''", 'b""', 'r""', "true", "false", "null",
+            # literals that are evaluation errors part-way through (an escape that denotes no octet / no code point after a legal prefix),
+            # next to the plain literals a decoder's leftover scratch state would corrupt
+            'b"xy\\400"', "b'''k\\u0100'''", 'b"z\\U00000041"', 'b"abc"', 'b"\\x61bc"', '"xy\\U00110000"', '"abc"', "b'q\\777r'", 'b"""ab\\400"""']
 from .. import pairhist as _pairhist  # noqa: E402
 
 _pairhist.install(globals(), PH_TEXTS)
